@@ -3,7 +3,7 @@ CONSTANTS
   Start <- StartF2
   MaxParas = 3
   EditFields = TRUE
-  SetVals = {101, 102}
+  SetVals = {101, 102, 103}
   SetSpells = {"U", "L"}
   Ops = {"get", "set", "del"}
   Emit = TRUE
